@@ -12,8 +12,21 @@ TECH = ("contract-based deductive verification: verification conditions generate
         "symbolic executor against sidecar contracts, discharged by z3 5.1 (nlsat after ackermannisation) / cvc5 / z3 4.8; "
         "counter-models replayed on the real package")
 
+import ast  # noqa: E402
+
+CHECKS = {}
+for pid in S.ALL:
+    path = os.path.join(HERE, "..", "contracts", f"{pid}.py")
+    if not os.path.exists(path):
+        continue
+    tree = ast.parse(open(path).read())
+    for node in tree.body:
+        if isinstance(node, ast.Assign) and len(node.targets) == 1 and getattr(node.targets[0], "id", None) == "MANIFEST":
+            CHECKS[pid] = ast.literal_eval(node.value)
+NOT_APPLICABLE = {p: S.NOT_APPLICABLE_REASONS.get(p, S._PENDING) for p in S.ALL if p not in CHECKS}
+
 checks = []
-for pid, c in sorted(S.CHECKS.items()):
+for pid, c in sorted(CHECKS.items()):
     checks.append({
         "property_id": pid,
         "quick_cmd": f"./check {pid} --tier quick",
@@ -21,7 +34,7 @@ for pid, c in sorted(S.CHECKS.items()):
         "evidence_file": f"evidence/{pid}.json",
         "replay_cmd_template": f"./check {pid} --replay {{path}}",
         "engine": "pyvc",
-        "level_claimed": {"category": "proof", "text": c["text"], "design_ref": f"DESIGN.md Part II {pid}"},
+        "level_claimed": {"category": c.get("category", "proof"), "text": c["text"], "design_ref": f"DESIGN.md Part II {pid}"},
         "level_note": c["note"],
         "technique": c.get("technique", TECH),
     })
@@ -36,13 +49,13 @@ m = {
         "add_only": True,
     },
     "engines": [{
-        "name": "pyvc", "path": "pyvc/", "serves_properties": sorted(S.CHECKS),
+        "name": "pyvc", "path": "pyvc/", "serves_properties": sorted(CHECKS),
         "kind_free_text": "contract-based deductive verifier for a Python/numpy subset: sidecar contracts (contracts/*.py) on the real "
                           "functions; VCs generated from /repo's ASTs on every run (pyvc/interp.py, loops.py, arr.py, sigma.py) and discharged "
                           "by z3 5.1 / cvc5 / z3 4.8; counter-models replayed on the real package under /venv/bin/python (replay.py)"}],
     "checks": checks,
     "notes": S.NOTES,
-    "not_applicable": [{"property_id": k, "reason": v} for k, v in sorted(S.NOT_APPLICABLE.items())],
+    "not_applicable": [{"property_id": k, "reason": v} for k, v in sorted(NOT_APPLICABLE.items())],
 }
 with open(os.path.join(HERE, "..", "MANIFEST.json"), "w") as f:
     json.dump(m, f, indent=1)
